@@ -289,7 +289,7 @@ func buildProofsGroup() ([]*target, error) {
 // genProof is the structured generator of the proof target: entry-level mutation of an honest proof.
 func genProof(ps []namedProof) func(t *rapid.T) ([]byte, string, []string) {
 	return func(t *rapid.T) ([]byte, string, []string) {
-		src := ps[rapid.IntRange(0, len(ps)-1).Draw(t, "proof")]
+		src := mut.Pick(t, "proof", ps)
 		p := &syncer.Proof{V: src.proof.V, UntrustedRoot: src.proof.UntrustedRoot}
 		for _, e := range src.proof.Entries {
 			if e == nil {
@@ -299,11 +299,11 @@ func genProof(ps []namedProof) func(t *rapid.T) ([]byte, string, []string) {
 			}
 		}
 		var kinds []string
-		nm := rapid.IntRange(1, 3).Draw(t, "nmut")
+		nm := 1 + mut.Uniform(t, "nmut", 3)
 		for i := 0; i < nm && len(p.Entries) > 0; i++ {
-			idx := rapid.IntRange(0, len(p.Entries)-1).Draw(t, "idx")
-			kind := rapid.SampledFrom([]string{"entry-bytes", "entry-bytes", "entry-bytes", "drop", "dup", "swap", "nil", "empty", "hash-entry", "type-byte", "kind-byte", "chain", "version", "root",
-				"truncate-proof", "splice-entry", "nest-entry"}).Draw(t, "pkind")
+			idx := mut.Uniform(t, "idx", len(p.Entries))
+			kind := mut.Pick(t, "pkind", []string{"entry-bytes", "entry-bytes", "entry-bytes", "drop", "dup", "swap", "nil", "empty", "hash-entry", "type-byte", "kind-byte", "chain", "version", "root",
+				"truncate-proof", "splice-entry", "nest-entry"})
 			kinds = append(kinds, kind)
 			e := p.Entries[idx]
 			switch kind {
@@ -318,12 +318,12 @@ func genProof(ps []namedProof) func(t *rapid.T) ([]byte, string, []string) {
 			case "drop":
 				p.Entries = append(p.Entries[:idx], p.Entries[idx+1:]...)
 			case "dup":
-				times := rapid.SampledFrom([]int{1, 1, 2, 200}).Draw(t, "times")
+				times := mut.Pick(t, "times", []int{1, 1, 2, 200})
 				for j := 0; j < times; j++ {
 					p.Entries = append(p.Entries[:idx+1], p.Entries[idx:]...)
 				}
 			case "swap":
-				j := rapid.IntRange(0, len(p.Entries)-1).Draw(t, "j")
+				j := mut.Uniform(t, "j", len(p.Entries))
 				p.Entries[idx], p.Entries[j] = p.Entries[j], p.Entries[idx]
 			case "nil":
 				p.Entries[idx] = nil
@@ -334,30 +334,30 @@ func genProof(ps []namedProof) func(t *rapid.T) ([]byte, string, []string) {
 				p.Entries[idx] = append([]byte{0x02}, h[:]...)
 			case "type-byte":
 				if len(e) > 0 {
-					e[0] = rapid.SampledFrom([]byte{0, 1, 2, 3, 0xff}).Draw(t, "tb")
+					e[0] = mut.Pick(t, "tb", []byte{0, 1, 2, 3, 0xff})
 				}
 			case "kind-byte":
 				if len(e) > 1 {
-					e[1] = rapid.SampledFrom([]byte{0, 1, 2, 3, 0xff}).Draw(t, "kb")
+					e[1] = mut.Pick(t, "kb", []byte{0, 1, 2, 3, 0xff})
 				}
 			case "chain":
-				n := rapid.SampledFrom([]int{1, 2, 64, 126, 127, 128, 129, 130, 131, 256, 2000, 7000}).Draw(t, "chain")
+				n := mut.Pick(t, "chain", []int{1, 2, 64, 126, 127, 128, 129, 130, 131, 256, 2000, 7000})
 				ch := chainEntries(n, p.V)
-				if rapid.Bool().Draw(t, "whole") {
+				if mut.Uniform(t, "whole", 2) == 0 {
 					p.Entries = ch
 				} else { // graft the chain in place of one entry
 					rest := append([][]byte{}, p.Entries[idx+1:]...)
 					p.Entries = append(append(p.Entries[:idx], ch...), rest...)
 				}
 			case "version":
-				p.V = rapid.SampledFrom([]uint16{0, 1, 1, 2, 0xffff}).Draw(t, "v")
+				p.V = mut.Pick(t, "v", []uint16{0, 1, 1, 2, 0xffff})
 			case "root":
-				p.UntrustedRoot[rapid.IntRange(0, 31).Draw(t, "rb")] ^= 1
+				p.UntrustedRoot[mut.Uniform(t, "rb", 32)] ^= 1
 			case "truncate-proof":
 				p.Entries = p.Entries[:idx]
 			case "splice-entry":
-				o := ps[rapid.IntRange(0, len(ps)-1).Draw(t, "other")].proof
-				p.Entries[idx] = o.Entries[rapid.IntRange(0, len(o.Entries)-1).Draw(t, "oe")]
+				o := mut.Pick(t, "other", ps).proof
+				p.Entries[idx] = o.Entries[mut.Uniform(t, "oe", len(o.Entries))]
 			case "nest-entry":
 				// an internal node whose embedded leaf is replaced by another full node encoding
 				if len(e) > 2 {
